@@ -31,3 +31,4 @@ import Dm.Props.C17Fmt
 #print axioms Dm.Props.C17.unreadable_examples
 #print axioms Dm.Props.C17.debug_enum_positions
 #print axioms Dm.FmtContainer.parseAll_some_iff
+#print axioms Dm.Props.C17.debug_field_attributes
